@@ -93,6 +93,7 @@ pub async fn support_vote(
     if let Some(addr) = peers.raft_addr(&vote.node_id) {
         let resp = PeerMessage::Vote(super::Vote::Response(VoteResponse {
             node_id: config.node_id.to_owned(),
+            round: vote.round,
         }));
 
         let data = serde_json::to_string(&resp).expect("PeerMessage not serializeable");
